@@ -1,6 +1,19 @@
 (* C17 — The virtual filesystems behave like a filesystem.
-   Property theorems only; proofs are in Proofs/FsProofs.v. *)
+   Property theorems only; proofs are in Proofs/FsProofs.v.  [model_step b]
+   is the executable model of pkg/apk/fs/memfs.go (b = MemFS) and
+   pkg/tarfs/fs.go (b = TarFS); its symlink limits (getnode_depth,
+   openfile_depth) and the reference's budget (spec_max_links) are the
+   constants goextract read from those files on this run. *)
 From Apko Require Import Base.Prelude Model.MemFS Spec.FsSpec Proofs.FsProofs Generated.FsConsts.
+Open Scope string_scope. Open Scope list_scope.
+
+(* the limits the theorems below are about: both files say the same, and it is
+   the 40 of path_resolution(7) *)
+Theorem c17_link_limits :
+  getnode_depth MemFS = spec_max_links /\ openfile_depth MemFS = spec_max_links /\
+  getnode_depth TarFS = spec_max_links /\ openfile_depth TarFS = spec_max_links /\ spec_max_links = 40.
+Proof. vm_compute. repeat split; reflexivity. Qed.
+Print Assumptions c17_link_limits.
 
 (* An operation of the reference filesystem that reports failure (an error or
    a crash) leaves the state unchanged; MkdirAll is excepted: like mkdir -p it
@@ -9,3 +22,150 @@ Theorem c17_failure_no_change : forall s o s' r,
   spec_step s o = (s', r) -> is_failure r = true -> is_mkdirall o = false -> s' = s.
 Proof. exact spec_failure_no_change. Qed.
 Print Assumptions c17_failure_no_change.
+
+(* the same of the two in-memory filesystems, in every state (inside the
+   envelope or not): a failing or panicking operation other than MkdirAll
+   changes nothing *)
+Theorem c17_model_failure_no_change : forall b s o s' r,
+  model_step b s o = (s', r) -> is_failure r = true -> is_mkdirall o = false -> s' = s.
+Proof. exact model_failure_no_change. Qed.
+Print Assumptions c17_model_failure_no_change.
+
+(* Refinement: in every state (reachable or not) and for every operation inside
+   the envelope E, the code's step IS the reference's step — same result, same
+   next state (heap and open handles). *)
+Theorem c17_refines : forall b s o, E b s o = true -> model_step b s o = spec_step s o.
+Proof. exact refines. Qed.
+Print Assumptions c17_refines.
+
+(* hence for every operation sequence, of any length, that stays inside the
+   envelope: all observations and the final state coincide *)
+Theorem c17_refines_run : forall b ops s, run_in_E b s ops = true -> model_run b s ops = spec_run s ops.
+Proof. exact refines_run. Qed.
+Print Assumptions c17_refines_run.
+
+(* non-vacuity: a sequence with directories, a relative link through a linked
+   directory, a hard link, handles, writes around EOF and a listing stays
+   inside the envelope on both backends *)
+Definition c17_demo : list op :=
+  [ MkdirAll ["a"; "b"] 493%N; Symlink ["a"; "b"] ["l"]; WriteFile ["l"; "f"] [1; 2; 3]%N 420%N;
+    Link ["a"; "b"; "f"] ["g"]; OpenFile ["g"] (mkFl ARdWr false false false false) 0%N;
+    Seek 0 5%Z 0; Write 0 [9]%N; ReadFile ["a"; "b"; "f"]; Symlink ["f"] ["a"; "b"; "r"]; ReadFile ["l"; "r"];
+    ReadDir ["l"]; Chmod ["g"] 384%N; Stat ["l"; "f"]; Remove ["g"]; Remove ["nope"]; Close 0; Read 0 1 ].
+Example c17_demo_in_envelope :
+  run_in_E MemFS init_st c17_demo = true /\ run_in_E TarFS init_st c17_demo = true /\
+  snd (spec_run init_st c17_demo) =
+    [ OOk; OOk; OOk; OOk; OOk; ONum 5%Z; ONum 1%Z; OBytes [1; 2; 3; 0; 0; 9]%N; OOk; OBytes [1; 2; 3; 0; 0; 9]%N;
+      ODir [("f", KReg); ("r", KSym)]; OOk; OInfo KReg 384%N 6%N 0%Z 0%Z None; OOk; OErr ENotExist; OOk; OErr EClosed ].
+Proof. vm_compute. repeat split; reflexivity. Qed.
+
+(* ---- outside the envelope: one refutation per corner --------------------------------
+   [after b ops] is the state the code is in after running [ops] from the empty
+   filesystem.  Each witness is replayed on the real code by the harness corpus. *)
+Definition after (b : backend) (ops : list op) : st := fst (model_run b init_st ops).
+Definition leaves (b : backend) (ops : list op) (o : op) (tag : string) : Prop :=
+  corner b (after b ops) o = Some tag /\ model_step b (after b ops) o <> spec_step (after b ops) o.
+Ltac refute := intros b; destruct b; split; vm_compute; try reflexivity; let H := fresh "H" in (intro H; discriminate H).
+
+Definition fl_rdwr := mkFl ARdWr false false false false.
+Definition fl_rd := mkFl ARd false false false false.
+
+Theorem c17_remove_nonempty_refuted : forall b,
+  leaves b [Mkdir ["d"] 493%N; WriteFile ["d"; "f"] [1]%N 420%N] (Remove ["d"]) "remove-nonempty-directory".
+Proof. refute. Qed.
+Print Assumptions c17_remove_nonempty_refuted.
+
+Theorem c17_negative_seek_refuted : forall b,
+  leaves b [WriteFile ["f"] [1; 2]%N 420%N; OpenFile ["f"] fl_rdwr 0%N] (Seek 0 (-3)%Z 0) "negative-seek-accepted".
+Proof. refute. Qed.
+Print Assumptions c17_negative_seek_refuted.
+
+(* ... after which Read and Write crash *)
+Theorem c17_negative_offset_panics_refuted : forall b,
+  leaves b [WriteFile ["f"] [1; 2]%N 420%N; OpenFile ["f"] fl_rdwr 0%N; Seek 0 (-3)%Z 0] (Read 0 1) "negative-offset-panic" /\
+  leaves b [WriteFile ["f"] [1; 2]%N 420%N; OpenFile ["f"] fl_rdwr 0%N; Seek 0 (-3)%Z 0] (Write 0 [7]%N) "negative-offset-panic" /\
+  snd (model_step b (after b [WriteFile ["f"] [1; 2]%N 420%N; OpenFile ["f"] fl_rdwr 0%N; Seek 0 (-3)%Z 0]) (Read 0 1)) = OPanic.
+Proof. intro b. split; [|split]; [revert b; refute | revert b; refute | destruct b; reflexivity]. Qed.
+Print Assumptions c17_negative_offset_panics_refuted.
+
+Theorem c17_nil_map_panic_refuted : forall b,
+  leaves b [WriteFile ["f"] [1]%N 420%N] (Symlink ["t"] ["f"; "x"]) "nil-children-map-panic" /\
+  snd (model_step b (after b [WriteFile ["f"] [1]%N 420%N]) (Symlink ["t"] ["f"; "x"])) = OPanic /\
+  snd (model_step b (after b [WriteFile ["f"] [1]%N 420%N]) (Mknod ["f"; "x"] 420%N 259%N)) = OPanic /\
+  snd (model_step b (after b [WriteFile ["f"] [1]%N 420%N]) (Link ["f"] ["f"; "x"])) = OPanic.
+Proof. intro b. split; [revert b; refute | destruct b; repeat split; reflexivity]. Qed.
+Print Assumptions c17_nil_map_panic_refuted.
+
+Theorem c17_lstat_follows_refuted : forall b,
+  leaves b [WriteFile ["f"] [1]%N 420%N; Symlink ["f"] ["l"]] (Lstat ["l"]) "lstat-follows-symlink".
+Proof. refute. Qed.
+Print Assumptions c17_lstat_follows_refuted.
+
+Theorem c17_nondir_prefix_refuted : forall b,
+  leaves b [WriteFile ["f"] [1]%N 420%N] (Stat ["f"; "x"]) "nondir-prefix-reported-notexist".
+Proof. refute. Qed.
+Print Assumptions c17_nondir_prefix_refuted.
+
+Theorem c17_unnormalised_path_refuted : forall b,
+  leaves b [WriteFile ["f"] [1]%N 420%N] (Stat ["."; "f"]) "path-not-normalised" /\
+  leaves b [Mkdir ["a"] 493%N] (Stat ["a"; ".."; "a"]) "path-not-normalised".
+Proof. intro b. split; revert b; refute. Qed.
+Print Assumptions c17_unnormalised_path_refuted.
+
+(* lexical "..": /l -> a/b, /a/b/x -> ../t; the reference reads /a/t through l/x, the code looks for /t *)
+Theorem c17_lexical_dotdot_refuted : forall b,
+  leaves b [MkdirAll ["a"; "b"] 493%N; Symlink ["a"; "b"] ["l"]; WriteFile ["a"; "t"] [1]%N 420%N;
+            Symlink [".."; "t"] ["a"; "b"; "x"]] (ReadFile ["l"; "x"]) "symlink-lexical-or-nesting-resolution".
+Proof. refute. Qed.
+Print Assumptions c17_lexical_dotdot_refuted.
+
+(* nesting depth instead of total: maxLinks+1 links in sequence resolve in the code *)
+Theorem c17_sequential_links_refuted : forall b,
+  leaves b [Symlink [""; ""] ["s"]; WriteFile ["f"] [1]%N 420%N]
+         (Stat (repeat "s" (S spec_max_links) ++ ["f"])) "symlink-lexical-or-nesting-resolution".
+Proof. refute. Qed.
+Print Assumptions c17_sequential_links_refuted.
+
+Theorem c17_open_mode_refuted : forall b,
+  leaves b [WriteFile ["f"] [1; 2]%N 420%N; OpenFile ["f"] fl_rd 0%N] (Write 0 [7]%N) "open-mode-not-enforced".
+Proof. refute. Qed.
+Print Assumptions c17_open_mode_refuted.
+
+Theorem c17_append_refuted : forall b,
+  leaves b [WriteFile ["f"] [1; 2]%N 420%N] (OpenFile ["f"] (mkFl ARdWr true false false false) 0%N) "append-offset-fixed-at-open" /\
+  leaves b [WriteFile ["f"] [1; 2]%N 420%N; OpenFile ["f"] (mkFl ARdWr true false false false) 0%N; Seek 0 0%Z 0]
+         (Write 0 [7]%N) "append-offset-fixed-at-open".
+Proof. intro b. split; revert b; refute. Qed.
+Print Assumptions c17_append_refuted.
+
+Theorem c17_excl_refuted : forall b,
+  leaves b [WriteFile ["f"] [1]%N 420%N] (OpenFile ["f"] (mkFl ARdWr false true true false) 420%N) "o-excl-ignored".
+Proof. refute. Qed.
+Print Assumptions c17_excl_refuted.
+
+Theorem c17_open_directory_refuted : forall b,
+  leaves b [Mkdir ["d"] 493%N] (OpenFile ["d"] fl_rd 0%N) "open-directory".
+Proof. refute. Qed.
+Print Assumptions c17_open_directory_refuted.
+
+Theorem c17_link_directory_refuted : forall b,
+  leaves b [Mkdir ["d"] 493%N] (Link ["d"] ["d"; "self"]) "hard-link-to-directory".
+Proof. refute. Qed.
+Print Assumptions c17_link_directory_refuted.
+
+Theorem c17_error_class_refuted : forall b,
+  leaves b [Symlink ["x"] ["x"]] (Link ["x"] ["y"]) "link-oldname-error-always-notexist" /\
+  leaves b [Symlink ["x"] ["x"]] (ListXattrs ["x"]) "xattr-lookup-error-always-notexist" /\
+  leaves b [Symlink ["x"] ["x"]] (MkdirAll ["x"; "c"] 493%N) "mkdirall-broken-link-error-class" /\
+  leaves b [WriteFile ["f"] [1]%N 420%N; OpenFile ["f"] fl_rd 0%N; Seek 0 1%Z 0] (Read 0 0) "zero-length-read-at-eof-reports-eof".
+Proof. intro b. repeat split; try (destruct b; vm_compute; reflexivity); destruct b; vm_compute; intro H; discriminate H. Qed.
+Print Assumptions c17_error_class_refuted.
+
+(* the two defects repaired by fix commit e12e6cc stay repaired in the model:
+   these steps are inside the envelope (so they are the reference's steps) *)
+Example c17_fixed_defects_inside : forall b,
+  run_in_E b init_st [WriteFile ["f"] [1; 2; 3]%N 420%N; OpenFile ["f"] fl_rdwr 0%N; Seek 0 7%Z 0; Write 0 [8; 9]%N;
+                      ReadFile ["f"]] = true /\
+  run_in_E b init_st [WriteFile ["f"] [1; 2; 3]%N 420%N; OpenFile ["f"] (mkFl AWr true false false true) 0%N; Write 0 [8; 9]%N;
+                      ReadFile ["f"]] = true.
+Proof. intro b; destruct b; vm_compute; split; reflexivity. Qed.
